@@ -245,3 +245,99 @@ pub fn arc_op(r: &mut Rng, kg: &mut KeyGen, vg: &mut ValGen, snap: &Ints) -> Int
         _ => list_iter_op(r, vg, &lists),
     }
 }
+
+pub fn wtiny_op(r: &mut Rng, kg: &mut KeyGen, vg: &mut ValGen, snap: &Ints) -> Ints {
+    let (lists, _) = multi_resident(snap, 3, 3);
+    let res: Vec<u64> = lists.concat();
+    match r.below(100) {
+        0..=91 => trait_op(r, kg, vg, &res),
+        92..=95 => vec![100 + r.below(4) as i128],
+        _ => vec![25],
+    }
+}
+
+/// hashes that matter: small values, colliding low bits, the extremes
+pub fn pick_hash(r: &mut Rng, pool: &mut Vec<u64>) -> u64 {
+    let c = r.below(100);
+    let h = if c < 55 && !pool.is_empty() {
+        *r.pick(pool)
+    } else if c < 70 {
+        r.below(16)
+    } else if c < 75 {
+        *r.pick(&[0u64, u64::MAX, 1 << 63, (1 << 32) - 1, 1 << 32, u64::MAX - 1])
+    } else {
+        r.next()
+    };
+    if pool.len() < 12 {
+        pool.push(h);
+    } else if r.chance(1, 4) {
+        let i = r.below(12) as usize;
+        pool[i] = h;
+    }
+    h
+}
+
+pub fn tiny_op(r: &mut Rng, pool: &mut Vec<u64>) -> Ints {
+    let h = pick_hash(r, pool) as i128;
+    let id = r.below(12) as i128;
+    match r.below(100) {
+        0..=39 => vec![80, h],
+        40..=49 => vec![81, id],
+        50..=54 => {
+            let n = r.range(0, 4);
+            let mut v = vec![82];
+            for _ in 0..n {
+                v.push(pick_hash(r, pool) as i128);
+            }
+            v
+        }
+        55..=57 => {
+            let n = r.range(0, 3);
+            let mut v = vec![83, n as i128];
+            for _ in 0..n {
+                v.push(r.below(12) as i128);
+            }
+            v
+        }
+        58..=69 => vec![84, h],
+        70..=74 => vec![85, id],
+        75..=80 => vec![86],
+        81 => vec![87],
+        82..=86 => vec![88, h],
+        87..=89 => vec![89, id],
+        90..=97 => vec![90, id, r.below(12) as i128],
+        _ => vec![91],
+    }
+}
+
+pub fn sampled_op(r: &mut Rng, pool: &mut Vec<u64>) -> Ints {
+    let h = pick_hash(r, pool) as i128;
+    let id = r.below(10) as i128;
+    let cost = match r.below(10) {
+        0 => 0,
+        1 => -(r.below(50) as i128),
+        2 => r.below(1 << 40) as i128,
+        _ => r.below(60) as i128,
+    };
+    match r.below(100) {
+        0..=29 => vec![110, h, cost],
+        30..=37 => vec![111, id, cost],
+        38..=49 => vec![112, h, cost],
+        50..=53 => vec![113, id, cost],
+        54..=65 => vec![114, h],
+        66..=69 => vec![115, id],
+        70 => vec![116],
+        71..=74 => vec![117, r.below(2000) as i128 - 500],
+        75..=77 => vec![118],
+        78..=89 => vec![119, cost],
+        _ => {
+            let nin = r.range(0, 4);
+            let mut v = vec![120, nin as i128];
+            for _ in 0..nin {
+                v.push(r.below(1000) as i128 + 100_000);
+                v.push(r.below(50) as i128);
+            }
+            v
+        }
+    }
+}
